@@ -1,6 +1,6 @@
 (* Single entry point of the executable model: function number, then its arguments. *)
 From Coq Require Import List ZArith.
-From PGA Require Import Wire.
+From PGA Require Import Wire WireCont WireMisc WireDissim.
 Import ListNotations.
 Local Open Scope Z_scope.
 
@@ -9,6 +9,9 @@ Definition run (s : list Z) : list Z :=
   | f :: r =>
     if f <? 0 then [-3]
     else if f <? 100 then run_align (Z.to_nat f) r
+    else if f <? 200 then run_cont (Z.to_nat (f - 100)) r
+    else if f <? 300 then run_misc (Z.to_nat (f - 200)) r
+    else if f <? 400 then run_dissim (Z.to_nat (f - 300)) r
     else [-2]
   | [] => [-3]
   end.
